@@ -344,6 +344,9 @@ func TestC30Bearer(t *testing.T) {
 		if m != nil && m.Body != nil {
 			body = stable(m.Body)
 		}
+		for i := range labels {
+			labels[i] = "b/" + labels[i]
+		}
 		rec.Case(reasons <= 1, fmt.Sprintf("%+v|%+v|%d|%s|%x", s, r, cur, label, body), labels...)
 		if rec.WantSample() {
 			rec.Sample(map[string]any{"token": fmt.Sprintf("%+v", s), "req": fmt.Sprintf("%+v", r), "epoch": cur, "mutation": label, "want_accept": want})
